@@ -1326,3 +1326,115 @@ class CQSBuildPattern:
 
     def ensures_class_context(self, node, result):
         return result.class_name == (self._class_stack[len(self._class_stack) - 1] if len(self._class_stack) > 0 else None)
+
+
+# ================================================================== collection-pipeline: `for` node -> PatternMatch
+CPD = CP + "detector.py::"
+CPS = CP + "suggestion_builder.py::"
+AnyAllMatchT = Rec("AnyAllMatch", cls=CP + "any_all_analyzer.py::AnyAllMatch", for_node=PyNode, condition=PyNode, is_any=Bool)
+FilterMapMatchT = Rec("FilterMapMatch", cls=CP + "filter_map_analyzer.py::FilterMapMatch", for_node=PyNode, result_var=Str,
+                      transform_var=Str, transform_expr=Str)
+TakewhileMatchT = Rec("TakewhileMatch", cls=CP + "filter_map_analyzer.py::TakewhileMatch", for_node=PyNode, result_var=Str,
+                      condition=PyNode)
+TEXT_ONLY = "refactoring-suggestion / loop-variable text only (ast.unparse based); no location clause depends on it"
+
+
+@contract(CPS + "get_target_name", props=["C12"], types=dict(target=PyNode), returns=Str, assumed=TEXT_ONLY)
+class CPGetTargetName:
+    def ensures(result):
+        return True
+
+
+cp_inverted = uf("cp_inverted_condition_text", [PyNode], Str)
+
+
+@contract(CPS + "invert_condition", props=["C12"], types=dict(condition=PyNode), returns=Str, assumed=TEXT_ONLY)
+class CPInvertCondition:
+    def value(condition):
+        return cp_inverted(condition)
+
+
+@contract(CPS + "build_suggestion", props=["C12"], types=dict(loop_var=Str, iterable=Str, conditions=SeqOf(Str)), returns=Str,
+          assumed=TEXT_ONLY)
+class CPBuildSuggestion:
+    def ensures(result):
+        return True
+
+
+@contract(CPS + "build_any_suggestion", props=["C12"], types=dict(loop_var=Str, iterable=Str, condition=Str), returns=Str,
+          assumed=TEXT_ONLY)
+class CPBuildAnySuggestion:
+    def ensures(result):
+        return True
+
+
+@contract(CPS + "build_all_suggestion", props=["C12"], types=dict(loop_var=Str, iterable=Str, condition=Str), returns=Str,
+          assumed=TEXT_ONLY)
+class CPBuildAllSuggestion:
+    def ensures(result):
+        return True
+
+
+@contract(CPS + "build_filter_map_suggestion", props=["C12"],
+          types=dict(loop_var=Str, iterable=Str, transform_var=Str, transform_expr=Str), returns=Str, assumed=TEXT_ONLY)
+class CPBuildFilterMapSuggestion:
+    def ensures(result):
+        return True
+
+
+@contract(CPS + "build_takewhile_suggestion", props=["C12"], types=dict(loop_var=Str, iterable=Str, condition=Str), returns=Str,
+          assumed=TEXT_ONLY)
+class CPBuildTakewhileSuggestion:
+    def ensures(result):
+        return True
+
+
+def at_for(result, for_node):
+    """Reported at the `for` statement; the message quotes the loop's own iterable expression."""
+    return result.line_number == for_node.lineno and result.iterable == py_unparse(for_node.iter)
+
+
+@contract(CPD + "create_any_match", props=["C12"], types=dict(match=AnyAllMatchT), returns=PatternMatchT)
+class CPCreateAnyMatch:
+    def requires(match):
+        return isinstance(match.for_node, ast.For) and match.condition is not None
+
+    def ensures_at_the_for_statement(match, result):
+        return at_for(result, match.for_node)
+
+
+@contract(CPD + "create_all_match", props=["C12"], types=dict(match=AnyAllMatchT), returns=PatternMatchT)
+class CPCreateAllMatch:
+    def requires(match):
+        return isinstance(match.for_node, ast.For) and match.condition is not None
+
+    def ensures_at_the_for_statement(match, result):
+        return at_for(result, match.for_node)
+
+
+@contract(CPD + "create_filter_map_match", props=["C12"], types=dict(match=FilterMapMatchT), returns=PatternMatchT)
+class CPCreateFilterMapMatch:
+    def requires(match):
+        return isinstance(match.for_node, ast.For)
+
+    def ensures_at_the_for_statement(match, result):
+        return at_for(result, match.for_node)
+
+
+@contract(CPD + "create_takewhile_match", props=["C12"], types=dict(match=TakewhileMatchT), returns=PatternMatchT)
+class CPCreateTakewhileMatch:
+    def requires(match):
+        return isinstance(match.for_node, ast.For) and match.condition is not None
+
+    def ensures_at_the_for_statement(match, result):
+        return at_for(result, match.for_node)
+
+
+@contract(CPD + "create_embedded_filter_match", props=["C12"], types=dict(for_node=PyNode, continues=SeqOf(PyNode)),
+          returns=PatternMatchT)
+class CPCreateEmbeddedFilterMatch:
+    def requires(for_node, continues):
+        return isinstance(for_node, ast.For) and all(c is not None for c in continues)
+
+    def ensures_at_the_for_statement(for_node, result):
+        return at_for(result, for_node)
